@@ -63,8 +63,8 @@ def check(run, prog, tier):
                           "add_dephasing: identities on the end-to-end formula (TA)", minimum=4)
     c = run.rule("C01-C", "secular masks keep exactly R[a,a,b,b] and R[a,b,a,b] "
                           "(exhaustive over 15 equality patterns)", minimum=5)
-    d = run.rule("C01-D", "every theory wired into get_RelaxationTensor has an obligation",
-                 minimum=7)
+    d = run.rule("C01-D", "every theory wired into get_RelaxationTensor has an obligation; attributes read "
+                          "by the constructors exist", minimum=7)
     rule_A(run, prog)
     rule_B(run, prog)
     rule_C(run, prog)
@@ -388,3 +388,18 @@ def rule_D(run, prog):
                        message="tensor class %s is handed out by get_RelaxationTensor but has no "
                                "trace/Hermiticity obligation in this check" % name, loc=f.loc(),
                        sample={"class": name, "discharged_by": COVERED.get(name)})
+    # every option of every covered tensor class must at least be constructible: attributes of self
+    # read by the constructors / initialisers exist (a misspelt attribute makes a whole option -
+    # cut-off time, secular, operator form - raise instead of building a tensor)
+    from .. import apiexist
+    funcs = []
+    for q in (RED, TDRED, LIND, FOER, TDFOER, RF, TDRF):
+        cls = prog.cls(q)
+        for c in prog.mro(cls):
+            if c is None:
+                continue
+            for nme, fn in c.methods.items():
+                if nme in ("__init__", "initialize", "_implementation", "secularize", "convert_2_tensor",
+                           "updateStructure", "add_dephasing", "_convert_operators_2_tensor") and fn not in funcs:
+                    funcs.append(fn)
+    apiexist.check_self_attributes(run, rid, prog, funcs, "constructing the tensor")
